@@ -237,6 +237,28 @@ pub fn exec(input: &Value) -> Value {
         }));
         outs.push(r.unwrap_or(json!("panic")));
     }
+    // multi-step histories over scripted readers (tool_oddreader.rs): decoder reused after reader errors,
+    // empty reads, one-byte / repeated fill_buf windows, decode and decode_into mixed, Default::default()
+    for (sticky, script, ops) in crate::registry::tool_oddreader::hist_specs(&input["hist"]) {
+        use crate::registry::tool_oddreader::{drive, Hist, Step};
+        fn fin<I>(h: Hist<I>, enc: &dyn Fn(&I) -> Value) -> Value {
+            if let Some(note) = h.fail {
+                return json!(format!("history failed: {}", note));
+            }
+            let events: Vec<Value> = h.steps.iter().map(|s| match s { Step::Item(i) => enc(i), Step::OwnErr => json!("err") }).collect();
+            json!({"events": events, "exhausted": h.exhausted, "cuts": h.cuts})
+        }
+        let r = catch(AssertUnwindSafe(|| {
+            if kind == "u8" {
+                fin(drive::<Utf8Decoder>(&data, &script, sticky, &ops, &|e: &std::io::Error| e.kind() == std::io::ErrorKind::InvalidInput), &|c| json!(*c as u32))
+            } else if input["which"].as_u64().unwrap_or(0) == 0 {
+                fin(drive::<TTYEventDecoder>(&data, &script, sticky, &ops, &|_| false), &enc_event)
+            } else {
+                fin(drive::<TTYCommandDecoder>(&data, &script, sticky, &ops, &|_| false), &enc_command)
+            }
+        }));
+        outs.push(r.unwrap_or(json!("panic")));
+    }
     Value::Array(outs)
 }
 
@@ -440,12 +462,18 @@ fn crun_u8(r: &Value) -> String {
 pub fn to_case(input: &Value, imp: &Value) -> Case {
     let kind = input["kind"].as_str().unwrap_or("ev").to_string();
     let data = vbytes(&input["input"]);
-    let parts: Vec<Vec<usize>> = input["parts"].as_array().map(|a| a.iter().map(vusizes).collect()).unwrap_or_default();
+    let mut parts: Vec<Vec<usize>> = input["parts"].as_array().map(|a| a.iter().map(vusizes).collect()).unwrap_or_default();
+    let nhist = input["hist"].as_array().map(|a| a.len()).unwrap_or(0);
     // an aborted child: every run of the case counts as crashed
     let runs: Vec<Value> = match imp.as_array() {
         Some(a) => a.clone(),
-        None => parts.iter().map(|_| json!("abort")).collect(),
+        None => (0..parts.len() + nhist).map(|_| json!("abort")).collect(),
     };
+    // a history's partition is what the decoder consumed call by call (whole stream when it crashed)
+    for _ in 0..nhist {
+        let cuts = runs.get(parts.len()).and_then(|r| r.get("cuts")).map(vusizes);
+        parts.push(cuts.unwrap_or_else(|| vec![data.len()]));
+    }
     // distinct outputs printed once
     let render = |r: &Value| if kind == "u8" { crun_u8(r) } else { crun_ev(r) };
     let mut distinct: Vec<String> = vec![];
@@ -500,7 +528,60 @@ pub fn to_case(input: &Value, imp: &Value) -> Case {
 
 // ------------------------------------------------------------------ generators
 
+/// integer constants written in the decoder / automata sources and their neighbours (harvested at run
+/// time): numeric parameters, digit counts, parameter counts and payload lengths are aimed at them
+fn src_bounds() -> &'static Vec<u64> {
+    static B: OnceLock<Vec<u64>> = OnceLock::new();
+    B.get_or_init(|| {
+        let mut v = source_boundaries(&["src/decoder.rs", "src/automata.rs"], u64::MAX);
+        if v.is_empty() {
+            v.push(256);
+        }
+        v
+    })
+}
+
+fn src_num(rng: &mut Rng, cap: u64) -> u64 {
+    let small: Vec<u64> = src_bounds().iter().copied().filter(|x| *x <= cap).collect();
+    if small.is_empty() {
+        cap.min(1)
+    } else {
+        small[rng.below(small.len() as u64) as usize]
+    }
+}
+
+/// a sequence one of whose SIZES (digit count, parameter count, payload length, run of characters) is a source constant
+fn src_sized(rng: &mut Rng, which: u64) -> (Vec<u8>, &'static str) {
+    let l = src_num(rng, 200) as usize;
+    let params = |l: usize, rng: &mut Rng| (0..l.min(70)).map(|_| rng.below(10).to_string()).collect::<Vec<_>>().join(";");
+    let text = |l: usize, rng: &mut Rng| (0..l).map(|_| (0x20 + rng.below(0x5f) as u8) as char).collect::<String>();
+    let v = if which == 1 {
+        match rng.below(3) {
+            0 => format!("\x1b[{}m", params(l, rng)),
+            1 => format!("\x1b[38;5;{}m", "7".repeat(l.clamp(1, 70))),
+            _ => text(l, rng),
+        }
+    } else {
+        match rng.below(10) {
+            0 => format!("\x1b[{}m", params(l, rng)),
+            1 => format!("\x1b[{};1R", "7".repeat(l.clamp(1, 70))),
+            2 => format!("\x1b[?{}c", params(l.max(1), rng)),
+            3 => format!("\x1b[200~{}\x1b[201~", text(l, rng)),
+            4 => format!("\x1b]{};{}\x07", rng.pick(&[10u32, 4, 52]), text(l, rng).replace('\x07', "a")),
+            5 => format!("\x1b_Gi=1;{}\x1b\\", text(l, rng)),
+            6 => format!("\x1bP1+r{}\x1b\\", "41".repeat(l.min(70))),
+            7 => format!("\x1b[{}u", params(l.max(1), rng)),
+            8 => format!("\x1bP1$r{}m\x1b\\", params(l, rng)),
+            _ => "\u{20ac}".repeat(l.min(60)),
+        }
+    };
+    (v.into_bytes(), "srcsize")
+}
+
 fn digits(rng: &mut Rng) -> String {
+    if rng.chance(1, 8) {
+        return src_num(rng, u64::MAX).to_string();
+    }
     match rng.below(16) {
         0 => String::new(),
         1 => "0".into(),
@@ -545,6 +626,9 @@ const SGR_CODES: [u64; 40] = [
 ];
 
 fn pk(rng: &mut Rng, xs: &[u64]) -> String {
+    if rng.chance(1, 6) {
+        return src_num(rng, u64::MAX).to_string();
+    }
     xs[rng.below(xs.len() as u64) as usize].to_string()
 }
 
@@ -620,7 +704,8 @@ fn piece(rng: &mut Rng, which: u64) -> (Vec<u8>, &'static str) {
     let d = |rng: &mut Rng| digits(rng);
     let semis = |rng: &mut Rng| ";".repeat(rng.below(4) as usize);
     if which == 1 {
-        return match rng.below(6) {
+        return match rng.below(7) {
+            6 => src_sized(rng, which),
             0 | 1 => (format!("\x1b[{}{}{}{}m", d(rng), semis(rng), d(rng), if rng.chance(1, 2) { ":2:300:1:2" } else { "" }).into_bytes(), "sgr"),
             2 => (utf8_boundary(rng), "utf8"),
             3 => (vec![rng.byte()], "byte"),
@@ -628,7 +713,8 @@ fn piece(rng: &mut Rng, which: u64) -> (Vec<u8>, &'static str) {
             _ => (format!("\x1b[{}", d(rng)).into_bytes(), "trunc"),
         };
     }
-    match rng.below(24) {
+    match rng.below(26) {
+        24 | 25 => src_sized(rng, which),
         0 => (format!("\x1b[{};{}R", d(rng), d(rng)).into_bytes(), "cpr"),
         1 => (format!("\x1b[<{};{};{}{}", d(rng), d(rng), d(rng), if rng.chance(1, 2) { 'M' } else { 'm' }).into_bytes(), "mouse"),
         2 => (format!("\x1b[{}{}u", d(rng), if rng.chance(1, 2) { format!(";{}", d(rng)) } else { String::new() }).into_bytes(), "kbd"),
@@ -774,6 +860,17 @@ fn all_single_cuts(n: usize) -> Vec<Vec<usize>> {
     parts
 }
 
+/// reader scripts / caller programs of a case (tool_oddreader.rs): `keep` of the three fixed and two random ones
+fn hist(rng: &mut Rng, keep: usize) -> Value {
+    let all = crate::registry::tool_oddreader::hist_gen(|n| rng.below(n), 2);
+    let mut all = all.as_array().cloned().unwrap_or_default();
+    while all.len() > keep {
+        let i = rng.below(all.len() as u64) as usize;
+        all.remove(i);
+    }
+    Value::Array(all)
+}
+
 pub fn generate(rng: &mut Rng, n: usize, tier: &str) -> Vec<Value> {
     let mut v = vec![];
     let thorough = tier == "thorough";
@@ -818,14 +915,14 @@ pub fn generate(rng: &mut Rng, n: usize, tier: &str) -> Vec<Value> {
         let which = if i % 4 == 3 { 1 } else { 0 };
         let (s, class) = boundary_piece(rng, which);
         let parts = if s.len() <= 9 { all_splits(s.len()) } else { all_single_cuts(s.len()) };
-        v.push(json!({"kind":"ev","which":which,"class":class,"input":jbytes(&s),"parts":parts}));
+        v.push(json!({"kind":"ev","which":which,"class":class,"input":jbytes(&s),"parts":parts,"hist":hist(rng, 2)}));
     }
     // UTF-8 boundary set through all three decoders
     for _ in 0..60 {
         let s = utf8_boundary(rng);
-        v.push(json!({"kind":"u8","class":"utf8","input":jbytes(&s),"parts":all_single_cuts(s.len())}));
-        v.push(json!({"kind":"ev","which":0,"class":"utf8","input":jbytes(&s),"parts":all_single_cuts(s.len())}));
-        v.push(json!({"kind":"ev","which":1,"class":"utf8","input":jbytes(&s),"parts":all_single_cuts(s.len())}));
+        v.push(json!({"kind":"u8","class":"utf8","input":jbytes(&s),"parts":all_single_cuts(s.len()),"hist":hist(rng, 5)}));
+        v.push(json!({"kind":"ev","which":0,"class":"utf8","input":jbytes(&s),"parts":all_single_cuts(s.len()),"hist":hist(rng, 2)}));
+        v.push(json!({"kind":"ev","which":1,"class":"utf8","input":jbytes(&s),"parts":all_single_cuts(s.len()),"hist":hist(rng, 2)}));
     }
     // the thorough tier adds its n random cases on top of the (much larger) exhaustive part
     let target = if thorough { v.len() + n } else { n };
@@ -837,14 +934,14 @@ pub fn generate(rng: &mut Rng, n: usize, tier: &str) -> Vec<Value> {
                     s.extend(utf8_boundary(rng));
                 }
                 s.truncate(48);
-                v.push(json!({"kind":"u8","class":"utf8","input":jbytes(&s),"parts":trivial_and(rng, s.len())}));
+                v.push(json!({"kind":"u8","class":"utf8","input":jbytes(&s),"parts":trivial_and(rng, s.len()),"hist":hist(rng, 3)}));
             }
             1 | 2 => {
                 // a single protocol-shaped sequence with extreme parameters
                 let which = if rng.chance(1, 5) { 1 } else { 0 };
                 let (s, class) = piece(rng, which);
                 let parts = if s.len() <= 8 { all_splits(s.len()) } else if s.len() <= 48 { all_single_cuts(s.len()) } else { trivial_and(rng, s.len()) };
-                v.push(json!({"kind":"ev","which":which,"class":class,"input":jbytes(&s),"parts":parts}));
+                v.push(json!({"kind":"ev","which":which,"class":class,"input":jbytes(&s),"parts":parts,"hist":hist(rng, 1)}));
             }
             _ => {
                 // streams: sequences with garbage interleaved
@@ -860,7 +957,7 @@ pub fn generate(rng: &mut Rng, n: usize, tier: &str) -> Vec<Value> {
                 if s.len() > 240 {
                     s.truncate(240);
                 }
-                v.push(json!({"kind":"ev","which":which,"class":"stream","input":jbytes(&s),"parts":trivial_and(rng, s.len())}));
+                v.push(json!({"kind":"ev","which":which,"class":"stream","input":jbytes(&s),"parts":trivial_and(rng, s.len()),"hist":hist(rng, 1)}));
             }
         }
     }
